@@ -62,7 +62,7 @@ ABS = 1e-3               # metric: one millimetre
 def run(ctx):
     obs = ctx.obs
     obs.extra['meta'] = META
-    total = ctx.n(400, 8000)
+    total = ctx.n(400, 20000)
     for case, rng in ctx.cases(total):
         conv = CONVENTIONS[case % len(CONVENTIONS)]
         spec = {'case': case, 'convention': conv}
